@@ -40,7 +40,19 @@ CONFIGS = {
 QUICK = ['x-ar-2050', 'b-ar-2050', 'x-py-2050', 'b-py-2038', 'x-ar-strings', 'b-ar-strict', 'b-py-gran1']
 
 TZS = ['UTC', 'America/Los_Angeles', 'Asia/Kolkata', 'Pacific/Kiritimati', 'Europe/London']
-LANGS = ['C', 'C.UTF-8', 'POSIX', 'en_US.UTF-8', 'tr_TR.UTF-8']
+def _installed_locales():
+    """Only locales that exist here: a program that calls setlocale(LC_ALL, '') must not die on a made-up name."""
+    want = ['C', 'C.UTF-8', 'POSIX', 'en_US.UTF-8', 'tr_TR.UTF-8', 'de_DE.UTF-8']
+    try:
+        have = subprocess.run(['locale', '-a'], stdout=subprocess.PIPE, text=True, timeout=20).stdout.split()
+    except Exception:
+        have = []
+    norm = {h.lower().replace('-', ''): h for h in have}
+    out = [w for w in want if w.lower().replace('-', '') in norm]
+    return out or ['C']
+
+
+LANGS = _installed_locales()
 
 
 def perturbation(seed, index):
@@ -55,6 +67,7 @@ def perturbation(seed, index):
         'cwd_depth': rng.randint(0, 4),
         'shim': index != 0 and rng.random() < 0.8,   # run 0 is the unperturbed control
         'stale_outputs': index != 0 and rng.random() < 0.4,  # output directory already holds older files
+        'home_user': 0 if index == 0 else rng.randint(0, 3),  # HOME / USER / LOGNAME / HOSTNAME / TMPDIR variants
     }
 
 
@@ -84,6 +97,11 @@ def compile_once(repo, src, workdir, cfg, pert):
     env = {k: v for k, v in os.environ.items() if not k.startswith(('PYTHON', 'LC_', 'LANG'))}
     env.update({'PYTHONHASHSEED': str(pert['hashseed']), 'TZ': pert['tz'], 'LANG': pert['lang'],
                 'LC_ALL': pert['lang'], 'PYTHONDONTWRITEBYTECODE': '1'})
+    hu = pert.get('home_user', 0)
+    if hu:
+        env.update({'HOME': '/nonexistent/home%d' % hu, 'USER': 'builder%d' % hu, 'LOGNAME': 'builder%d' % hu,
+                    'HOSTNAME': 'buildhost%d' % hu, 'TMPDIR': os.path.join(workdir, 'tmp%d' % hu)})
+        os.makedirs(env['TMPDIR'], exist_ok=True)
     if pert['shim']:
         env['PYTHONPATH'] = HERE
         env['DETCOMPILE_SEED'] = str(pert['shim_seed'])
@@ -159,7 +177,7 @@ def run(prop, tier, verif_seed):
     exit_code = 0
     stats = {'compilations': 0, 'files_compared': 0, 'bytes_compared': 0, 'reason_lines_canonicalised': 0,
              'raw_byte_differences_excused': 0}
-    fault_counts = {'stale_outputs_present': 0, 'hashseed_changed': 0, 'clock_jumping': 0, 'listing_shuffled': 0, 'tz_changed': 0,
+    fault_counts = {'home_user_host_changed': 0, 'stale_outputs_present': 0, 'hashseed_changed': 0, 'clock_jumping': 0, 'listing_shuffled': 0, 'tz_changed': 0,
                     'locale_changed': 0, 'cwd_depth_changed': 0, 'umask_changed': 0}
     samples = []
     distinct = set()
@@ -184,6 +202,8 @@ def run(prop, tier, verif_seed):
             distinct.add((c, p['hashseed'] != 0, p['shim'], p['tz'], p['lang'], p['cwd_depth'], p['umask']))
             if p.get('stale_outputs'):
                 fault_counts['stale_outputs_present'] += 1
+            if p.get('home_user'):
+                fault_counts['home_user_host_changed'] += 1
             if p['hashseed'] != 0:
                 fault_counts['hashseed_changed'] += 1
             if p['shim']:
@@ -274,7 +294,7 @@ def minimise_perturbation(repo, src, root, cfg, ref, pert, base):
     outputs still differ."""
     cur = dict(pert)
     n = [0]
-    for dim in ('shim', 'stale_outputs', 'tz', 'lang', 'umask', 'cwd_depth', 'hashseed'):
+    for dim in ('shim', 'stale_outputs', 'home_user', 'tz', 'lang', 'umask', 'cwd_depth', 'hashseed'):
         trial = dict(cur)
         trial[dim] = base[dim]
         if trial == cur:
